@@ -56,7 +56,10 @@ pub fn run(out: &mut Out, seed: u64, tier: &str) {
             let rise = r.e1 - r.e0;
             if rise > worst_rise { worst_rise = rise; }
             if !(r.e1 <= r.e0 + 1e-9 * r.e0.abs().max(1.0)) {
-                out.oracle_fail(&format!("{} energy rose from {} to {} kcal/mol", kind, r.e0, r.e1), &replay);
+                // say why, when a known cause is visible at the start geometry (the attribution the robustness stream uses)
+                let why = catch(|| m.build()).map(|mol| crate::s_robust::attribute(m, &mol, kind)).unwrap_or_default();
+                let why = if why.starts_with("unattributed") || why.is_empty() { String::new() } else { format!(" — {}", why) };
+                out.oracle_fail(&format!("{} energy rose from {} to {} kcal/mol{}", kind, r.e0, r.e1, why), &replay);
             }
         }
     }
